@@ -25,6 +25,8 @@ impl CancelIo for CancelIoImpl {
     unsafe fn cancel(&self) -> Option<std::io::Result<()>> {
         if let Some(e) = self.0.take() {
             if let Some(co) = e.co.take() {
+                #[cfg(may_verif)]
+                may_queue::verif::point(may_queue::verif::site::IO_CANCEL_TOOK, 0);
                 get_scheduler().schedule(co);
                 return Some(Ok(()));
             }
